@@ -870,7 +870,7 @@ pub fn main(env: &Env) -> i32 {
     parts.push(run_proptest(
         env,
         "batches",
-        "committee of 3-5 validators plus 2 outsiders; 1-8 batches of 0-5 announcements with version {0,1,2,u64::MAX}, 7 timestamps (ties, negative, extreme), signed correctly / by another key / altered after signing, stale replays, duplicated keys at any position; \
+        "committee of 3-5 validators plus 2 outsiders; 1-8 batches of 0-5 announcements with version {0,1,2,u64::MAX}, 7 timestamps (ties, negative, extreme), signed correctly / by another key / altered after signing / carrying the signature of another entry of the batch (exchanges keep the sum of signatures unchanged), stale replays, duplicated keys at any position; \
          oracle: reference map with whole-batch atomicity equals the real book after every batch; model-free: only members, every stored entry verifies, replacements strictly newer, nothing disappears, refused update leaves the book unchanged. \
          Non-trivial = a rejected batch that contained storable newer entries, or an equal (version, timestamp) tie",
         PartOpts { cases: env.tier.pick(4_000, 120_000), max_shrink_iters: 2000, samples: 2 },
